@@ -92,7 +92,7 @@ theorem g3_raiseSig (st : St) (s : Int) : G3 st (raiseSig st s) := by
   · split
     · exact G3.of_eq rfl rfl rfl rfl
     · split
-      · exact G3.of_eq rfl rfl rfl rfl
+      · unfold sigRecord; split <;> first | exact G3.of_eq rfl rfl rfl rfl | exact G3.refl _
       · split
         · exact G3.of_eq rfl rfl rfl rfl
         · exact G3.refl st
@@ -397,11 +397,27 @@ theorem g3_waitpid (st : St) (pid : Int) : G3 st (waitpid st pid).st := by
   · exact G3.refl st
 
 
+theorem g3_setNotify (st : St) (a : Nat) (n : Option Nat) : G3 st (setNotify st a n) := by
+  unfold setNotify
+  exact g3_setW st a { st.getW a with notify := n } rfl rfl
+
+theorem g3_linkNotified (r : St × Nat) (a : Nat) (flags : Nat) : G3 r.1 (linkNotified r a flags) := by
+  unfold linkNotified
+  exact ((g3_setNotify r.1 a (some r.2)).trans (g3_insertWatch _ _ _ _)).trans (g3_with_procs _ _)
+
+theorem g3_clearNotify (st : St) (a : Nat) : G3 st (clearNotify st a) := by
+  unfold clearNotify
+  split
+  · exact g3_setNotify st a none
+  · exact G3.refl _
+
 theorem g3_linkProcess (st : St) (a : Nat) (pid : Int) (flags : Nat) : G3 st (linkProcess st a pid flags) := by
   unfold linkProcess
   simp only []
   split
-  · exact ((g3_waitpid _ _).trans (g3_setWstatus _ _ _)).trans (g3_watchLater _ _ _ _)
+  · split
+    · exact (((g3_waitpid _ _).trans (g3_setWstatus _ _ _)).trans (g3_watchLater _ _ _ _)).trans (g3_linkNotified _ _ _)
+    · exact ((g3_waitpid _ _).trans (g3_setWstatus _ _ _)).trans (g3_watchLater _ _ _ _)
   · exact ((g3_waitpid _ _).trans (g3_insertWatch _ _ _ _)).trans (g3_with_procs _ _)
 
 
@@ -524,8 +540,18 @@ theorem kstep_cancelFound (st : St) (a : Nat) (ha : a ∈ listOf st (st.getW a).
 
 
 
-theorem k_watchCancel (st : St) (a : Nat) : KStep st (watchCancel st a) := by
-  unfold watchCancel
+theorem g3_cancelDetached (st : St) (a : Nat) : G3 st (cancelDetached st a) := by
+  unfold cancelDetached
+  exact (g3_cancelNotify st a _).trans (g3_setW _ a _ rfl rfl)
+
+theorem g3_laterPre (st : St) (a : Nat) : G3 st (laterPre st a) := by
+  unfold laterPre
+  split
+  · exact g3_setW _ a _ rfl rfl
+  · exact G3.refl _
+
+theorem k_watchCancel0 (st : St) (a : Nat) : KStep st (watchCancel0 st a) := by
+  unfold watchCancel0
   split
   · exact KStep.refl st
   · split
@@ -535,10 +561,20 @@ theorem k_watchCancel (st : St) (a : Nat) : KStep st (watchCancel st a) := by
       · split
         · exact (g3_fail st _).kstep
         · split
-          · exact KStep.refl st
+          · split
+            · exact (g3_cancelDetached st a).kstep
+            · exact KStep.refl st
           · rename_i hc
             have : a ∈ listOf st (st.getW a).type := by simpa using hc
             exact kstep_cancelFound st a this
+
+theorem k_watchCancel (st : St) (a : Nat) : KStep st (watchCancel st a) := by
+  unfold watchCancel
+  split
+  · split
+    · exact (k_watchCancel0 st a).trans (k_watchCancel0 _ _)
+    · exact k_watchCancel0 st a
+  · exact k_watchCancel0 st a
 
 theorem validSig_ne_zero (s : Int) (h : validSig s = true) : s ≠ 0 := by
   intro h0; subst h0; revert h; decide
@@ -576,11 +612,13 @@ theorem k_doRegister (st : St) (k : Int) (reg : St → St × Nat) (h : ∀ s, KS
     · exact (h st).trans (g3_with_slots _ _).kstep
 
 
+theorem g3_with_cancelReq (st : St) (l : List Int) : G3 st { st with cancelReq := l } := G3.of_eq rfl rfl rfl rfl
+
 theorem k_doCancel (st : St) (k : Int) : KStep st (doCancel st k) := by
   unfold doCancel
   split
   · exact (g3_emit _ _).kstep
-  · exact k_watchCancel _ _
+  · exact (g3_with_cancelReq _ _).kstep.trans (k_watchCancel _ _)
 
 
 theorem k_runAct (st : St) (act : Act) : KStep st (runAct st act) := by
@@ -764,7 +802,7 @@ theorem k_processNotify (st : St) (a : Nat) : KStep st (processNotify st a) := b
   unfold processNotify
   split
   · exact (g3_fail _ _).kstep
-  · exact k_invokeWatch _ _ _ _
+  · exact (g3_clearNotify _ _).kstep.trans (k_invokeWatch _ _ _ _)
 
 
 theorem k_laterCb (st : St) (a : Nat) : KStep st (laterCb st a) := by
@@ -787,10 +825,12 @@ theorem k_laterLoopT (l : List Nat) : ∀ st : St, KStep st (laterLoopT st l).1 
     · split
       · exact (g3_fail _ _).kstep
       · split
-        · exact k_laterCb _ _
+        · exact (g3_free _ a).kstep.trans (ih _)
         · split
-          · exact (k_laterCb _ _).trans (g3_fail _ _).kstep
-          · exact ((k_laterCb _ _).trans (g3_free _ a).kstep).trans (ih _)
+          · exact (g3_laterPre st a).kstep.trans (k_laterCb _ a)
+          · split
+            · exact ((g3_laterPre st a).kstep.trans (k_laterCb _ a)).trans (g3_fail _ _).kstep
+            · exact (((g3_laterPre st a).kstep.trans (k_laterCb _ a)).trans (g3_free _ a).kstep).trans (ih _)
 
 
 theorem k_laterLoop (l : List Nat) (st : St) : KStep st (laterLoop st l) := k_laterLoopT l st
@@ -997,7 +1037,9 @@ theorem g3_pollTimeout (st : St) (t : Option Int) : G3 st (pollTimeout st t) := 
   · exact G3.refl _
 
 
-theorem g3_deliverPending (st : St) : G3 st (deliverPending st) := G3.of_eq rfl rfl rfl rfl
+theorem g3_deliverPending (st : St) : G3 st (deliverPending st) := by
+  unfold deliverPending
+  split <;> exact G3.of_eq rfl rfl rfl rfl
 
 
 theorem g3_ppoll (st : St) (t : Option Int) : G3 st (ppoll st t).1 := by
